@@ -8,6 +8,7 @@ import (
 	"sort"
 	"strconv"
 	"strings"
+	"sync"
 	"time"
 
 	"reduction.dev/reduction/batching"
@@ -244,6 +245,20 @@ func (x *run) close() {
 
 // start brings up the job and the workers and waits until every split has a reader.
 func (x *run) start(extraWorkers int) {
+	if x.o.workers > x.o.splits && x.r.Intn(2) == 0 {
+		// more runners than splits: the AssignSplits call to one runner that gets nothing fails once (a transient RPC
+		// error that costs nothing); the other runners' assignments must be unaffected, each split keeps ONE reader
+		var once sync.Once
+		x.cl.FailAssign = func(node string, splits int) (err error) {
+			if splits == 0 {
+				once.Do(func() {
+					err = fmt.Errorf("verif: transient transport error")
+					x.c.Feat("empty_assignment_rpc_failures", 1)
+				})
+			}
+			return err
+		}
+	}
 	if err := x.cl.StartJob(); err != nil {
 		x.c.Fail("job-start-error", x.wit(), "jobs.New: %v", err)
 	}
